@@ -174,8 +174,11 @@ def r1_operations(chk, fx):
 
 
 # ---------------------------------------------------------------------------------------------
-def gate_table(t):
-    """variant -> requirement from `let required_capabilities = match self {..}`; or a fixed requirement."""
+def gate_table(t, fx=None, variants=()):
+    """variant -> requirement from `let required_capabilities = match self {..}`; or a fixed requirement.
+
+    The table may live in a private helper (`self.required_capabilities(flag)`): the helper's match is then evaluated per variant
+    with its parameters bound to the literal arguments of the call (arm guards over bool parameters are evaluated)."""
     body = T.user_body(t)
     lets = [s for s in T.walk(body) if s.get("k") == "LetStmt" and T.pat_str(s["pat"]) == "required_capabilities"]
     if len(lets) != 1:
@@ -185,9 +188,75 @@ def gate_table(t):
         rows = {}
         for a in init["arms"]:
             for v in pat_variants(a["pat"]):
-                rows[v] = req_norm(a["body"])
+                rows.setdefault(v, req_norm(a["body"]))
         return rows, None
+    if init.get("k") == "Call" and fx is not None and init.get("fn") in fx.thir and variants:
+        rows = _table_via_helper(fx, init, variants)
+        if rows is not None:
+            return rows, None
+        return None, None
     return None, req_norm(init)
+
+
+def _table_via_helper(fx, call, variants, depth=0):
+    ht = fx.thir[call["fn"]]
+    params = [T.pat_str(p["pat"]) for p in ht.get("params", []) if p.get("pat") is not None]
+    if len(params) != len(call["args"]):
+        return None
+    env = {}
+    self_param = None
+    for pn, a in zip(params, call["args"]):
+        a = T.peel(a)
+        if a.get("k") == "Lit" and isinstance(a.get("v"), bool):
+            env[pn] = a["v"]
+        elif a.get("k") == "Var" and a["name"] == "self":
+            self_param = pn
+        else:
+            return None
+    if self_param is None:
+        return None
+    body = T.user_body(ht)
+    e = T.peel(body.get("expr") if body.get("k") == "Block" and not body.get("stmts") else body)
+    if e.get("k") != "Match" or T.expr_str(T.peel(e["scrut"])) != self_param:
+        return None
+    rows = {}
+    for v in variants:
+        hit = None
+        for a in e["arms"]:
+            pv = pat_variants(a["pat"])
+            if v not in pv and "_" not in pv:
+                continue
+            g = a.get("guard")
+            if g is not None:
+                val = _eval_bool(g, env)
+                if val is None:
+                    return None
+                if not val:
+                    continue
+            hit = a
+            break
+        if hit is None:
+            return None
+        rows[v] = req_norm(hit["body"])
+    return rows
+
+
+def _eval_bool(e, env):
+    e = T.peel(e)
+    k = e.get("k")
+    if k == "Var":
+        return env.get(e["name"])
+    if k == "Lit" and isinstance(e.get("v"), bool):
+        return e["v"]
+    if k == "Unary" and e.get("op") == "Not":
+        v = _eval_bool(e["arg"], env)
+        return None if v is None else (not v)
+    if k == "Logical":
+        a, b = _eval_bool(e["lhs"], env), _eval_bool(e["rhs"], env)
+        if a is None or b is None:
+            return None
+        return (a and b) if e["op"] == "And" else (a or b)
+    return None
 
 
 def pat_variants(p):
@@ -211,10 +280,11 @@ def r2_gate_tables(chk, fx):
     for fn, ref in sorted(GATE_REF.items()):
         t = fx.thir_body(fn)
         chk.analysed(fn)
-        rows, fixed = gate_table(t)
+        rows, fixed = gate_table(t, fx, tuple(ref))
         if rows is None:
             chk.instance("C09/R2", "%s: requirement table of unrecognised form" % T.short(fn, 2), fn, loc_of(t.get("sp")), holds=False,
                          key="C09/R2 %s unrecognised-form" % T.short(fn, 3))
+            n += len(ref)
             continue
         for v, want in sorted(ref.items()):
             got = rows.get(v, rows.get("_"))
